@@ -25,7 +25,7 @@ CanonApp(j) == [demand |-> j.demand, prio |-> j.prio, aff |-> j.aff, limits |-> 
                 blacklisted |-> j.blacklisted, traits |-> SetOf(j.traits),
                 own |-> SetOf(j.own), order |-> j.order]
 CanonGrp(j) == [count |-> j.count, available |-> SetOf(j.available)]
-Canon(js) == [clock |-> js.clock,
+Canon(js) == [clock |-> js.clock, nea |-> js.nea,
               servers |-> [s \in DOMAIN js.servers |-> CanonSrv(js.servers[s])],
               buckets |-> [b \in DOMAIN js.buckets |-> CanonBkt(js.buckets[b])],
               apps |-> [a \in DOMAIN js.apps |-> CanonApp(js.apps[a])],
@@ -96,8 +96,19 @@ ObsPre(pre, a, line, tr) ==
                  !.apps = [n \in DOMAIN pre.apps |->
                              [pre.apps[n] EXCEPT !.prio = prioO(n), !.alloc = allocO(n)]]]
 
+(* marks for unscheduling are given by the environment for the placement the   *)
+(* instance has at that moment (master._freeze_server): a |-> that server      *)
+MarkNext(mk, pre, line) ==
+  IF "exc" \in DOMAIN line THEN mk
+  ELSE IF line.ev = "MarkUnschedule" /\ line.args[1] \in AppNames(pre)
+  THEN With(mk, line.args[1], pre.apps[line.args[1]].server)
+  ELSE IF line.ev = "RemoveApp" THEN Without(mk, line.args[1])
+  ELSE IF line.ev = "L2" THEN EmptyFn
+  ELSE mk
+
 AuxNext(a, pre, line, post, scn) ==
   [down |-> DownNext(a.down, pre, line, post),
+   marks |-> MarkNext(a.marks, pre, line),
    prio |-> IF line.ev \in {"Submit", "SetPrio", "RemoveApp"}
             THEN PrioNext(a.prio, line, CanonScn(scn)) ELSE a.prio,
    alloc |-> IF line.ev \in {"Submit", "Move", "RemoveApp"}
@@ -112,13 +123,21 @@ C03declared(post, al, scn) ==
       /\ post.servers[s].label = x.label
       /\ (post.apps[a].own \cup x.traits) \subseteq post.servers[s].traits
 
+(* pre-state with the unschedule flags as the observer knows them (L1 traces):  *)
+(* marked = the environment marked the instance on the server it is still on  *)
+ObsMarks(pre, mk, kind) ==
+  IF kind # "l1" THEN pre
+  ELSE [pre EXCEPT !.apps = [n \in DOMAIN pre.apps |->
+          [pre.apps[n] EXCEPT !.unschedule =
+             (n \in DOMAIN mk /\ mk[n] # NoServer /\ mk[n] = pre.apps[n].server)]]]
+
 CycleFail(pre, line, post) ==
   LET q == Flatten(line.queues)
       pl == line.placement IN
   F("C01.cap", C01cap(post)) \cup F("C01.free", C01free(post))
   \cup F("C01.single", C01single(post)) \cup F("C01.views", C01views(post))
   \cup F("C03.post", C03post(post)) \cup F("C03.assign", C03assign(post, pl))
-  \cup F("C03.renew", C03renew(post, pl))
+  \cup F("C03.renew", C03renew(post, pl)) \cup F("C03.leaseEnd", C03leaseEnd(post, pl))
   \cup F("C04.limit", C04limit(post)) \cup F("C04.counters", C04counters(post))
   \cup F("C05.unique", C05unique(post)) \cup F("C05.range", C05range(post))
   \cup F("C05.placedHas", C05placedHas(post)) \cup F("C05.pendingNone", C05pendingNone(post))
@@ -132,7 +151,7 @@ CycleFail(pre, line, post) ==
                  post.apps[a].server \in SrvNames(post) =>
                    post.servers[post.apps[a].server].label = line.declared[a])
         ELSE {})
-  \cup F("C08.frozenKeep", C08frozenKeep(pre, post, q))
+  \cup F("C08.frozenKeep", C08frozenKeep(ObsMarks(pre, aux.marks, Traces[t].kind), post, q))
   \cup F("C08.frozenNoNew", C08frozenNoNew(pre, post))
   \cup F("C08.blacklist", C08blacklist(post))
   \cup (LET op == ObsPre(pre, aux, line, Traces[t]) IN
@@ -184,7 +203,7 @@ Init == /\ t \in DOMAIN Traces
         /\ i = 1
         /\ st = Canon(Traces[t].lines[1].post)
         /\ aux = [down |-> DownOf(Canon(Traces[t].lines[1].post)), alloc |-> EmptyFn,
-                  prio |-> EmptyFn]
+                  prio |-> EmptyFn, marks |-> EmptyFn]
 
 Next == /\ i < Len(Traces[t].lines)
         /\ i' = i + 1
